@@ -43,7 +43,9 @@ Histories with org.freedesktop.DBus.Properties calls (composition with C17's mod
   punexport <path>                        unexportObject                                       -> none
   passign <o> <attr> <val>                local assignment (C17's `assign`)                    -> C17's outputs
   pcall <path> <iface|~> <member> <sig|~> <sender|~> <serial> <expectReply 0|1> <managedEnc> <nargs> {<arg>}
-        <arg> := s<hex> | v<val> | o<n>   (values as in Driver/C17.lean)                       -> signals and messages
+        <nuser> {<funcId> <N | V<val>>}
+        <arg> := s<hex> | v<val> | o<n>   (values as in Driver/C17.lean); the user functions of the scenario (those that
+        take a Properties member away from the library) return None / the value            -> signals and messages
   Messages of a pcall:  sig .. (C17's vocabulary) | ret <serial> <dest|~> <sig|~> <empty|xml|managed|nobody|v <sig> <val>|
   d <n> {<key> <sig> <val>}> | err <name> <serial> <dest|~> <text> | errv <serial> <dest|~> (an exception Python raised on a
   bad value: name and text are not the model's) | inv .. (user functions only)
@@ -433,7 +435,7 @@ def parsePExport : P (Nat × Str × Obj) := do
   let cs ← rep cls n
   pure (o, path, { classes := cs ++ [baseClass] })
 
-def parsePCall : P (Option Exc × Call PV) := do
+def parsePCall : P (Option Exc × Call PV × List (Nat × Outcome PV)) := do
   let path ← str
   let ifc ← optStr
   let member ← str
@@ -444,7 +446,24 @@ def parsePCall : P (Option Exc × Call PV) := do
   let me ← enc
   let nargs ← nat
   let args ← rep (do let t ← tok; match pvArg t with | some a => pure a | none => failure) nargs
-  pure (me, { path, iface := ifc, member, sig, sender, serial, expectReply := er, body := args })
+  -- what the USER functions of the scenario return (functions that take Properties members away from the library)
+  let nuser ← nat
+  let us ← rep (do
+    let fid ← nat
+    let t ← tok
+    let oc : Outcome PV ← (match t.toList with
+      | ['N'] => pure (.value (.single (.val .none)))
+      | 'V' :: r =>
+        match parseVal? (String.ofList r) with
+        | some v =>
+          -- the value travels in a variant when the member returns one: signature inferred as C17's model infers it
+          match Props.encodeVariant ⟨none, v⟩ with
+          | some (sg, w) => pure (.value (.single (.variant sg w)))
+          | none => pure (.raise vexc)
+        | none => failure
+      | _ => failure)
+    pure (fid, oc)) nuser
+  pure (me, { path, iface := ifc, member, sig, sender, serial, expectReply := er, body := args }, us)
 
 def runC17 (d : PSt) (op : Props.Op) : PSt × List Props.Out :=
   match d.world with
@@ -499,9 +518,13 @@ def stepLine (d : PSt) (ws : List String) : PSt × String :=
     | _, _, _ => (d, "parse-error")
   | "pcall" :: ts =>
     match finish parsePCall ts, d.world with
-    | some (me, c), some W =>
+    | some (me, c, us), some W =>
       let L : Lib := { cfg := Props.Cfg.repaired, W := W, o := (dictGet d.inst c.path).getD 0, vexc := vexc }
-      let r := callStep (pEnv me) L d.disp d.pst c (fun _ => .value (.single (.other 100)))
+      let user : Nat → Outcome PV := fun id =>
+        match us.find? (fun u => u.1 == id) with
+        | some u => u.2
+        | none => .value (.single (.other 100))
+      let r := callStep (pEnv me) L d.disp d.pst c user
       let msgs := r.2.2.2.map showOut ++ r.2.2.1.filterMap (fun e => showPEvent e.2)
       ({ d with disp := r.1, pst := r.2.1 }, if msgs.isEmpty then "none" else " | ".intercalate msgs)
     | _, _ => (d, "parse-error")
